@@ -185,10 +185,20 @@ func Main(t *testing.T, d Driver) {
 	if timeout == 0 {
 		timeout = 15 * time.Minute
 	}
+	// VERIF_MAXCASES=n: leave after n cases (the orchestrator starts a fresh process at the next case), so that memory
+	// held by abandoned goroutines of the code under test (e.g. crashed clients, leaked readers) stays bounded
+	maxCases, _ := strconv.Atoi(os.Getenv("VERIF_MAXCASES"))
+	ran := 0
 	for idx := range cases {
 		if idx%shardN != shardI || idx < start {
 			continue
 		}
+		if maxCases > 0 && ran >= maxCases {
+			emit(line{T: "recycle", Idx: idx})
+			out.Flush()
+			return
+		}
+		ran++
 		c := cases[idx]
 		emit(line{T: "start", Idx: idx, Case: &c})
 		t0 := time.Now()
